@@ -200,6 +200,26 @@ def _find(I, st, m, key, frame):
         if i >= len(its):
             return [(s, None)]
         it = its[i]
+        if it[0] == 'opt':
+            # an entry that exists only when a decision key has one of the allowed values (a word of the command collected
+            # into a dict): a look-up of its key decides the question on this path and turns the entry into a plain one
+            res = []
+            for (s2, eq) in equals(I, s, key, it[1], frame):
+                if not eq:
+                    res.extend(rec(s2, i + 1))
+                    continue
+                from .loops import PSTATUS
+                for (s3, there) in I.decide(s2, it[3], PSTATUS, it[4]):
+                    its3 = list(s3.maps[m.oid])
+                    if there:
+                        its3[i] = ('kv', it[1], it[2])
+                        s3.maps[m.oid] = tuple(its3)
+                        res.append((s3, i))
+                    else:
+                        del its3[i]
+                        s3.maps[m.oid] = tuple(its3)
+                        res.extend(rec(s3, i))
+            return res
         if it[0] == 'kv':
             res = []
             for (s2, eq) in equals(I, s, key, it[1], frame):
@@ -222,6 +242,32 @@ def _find(I, st, m, key, frame):
                 res.extend(rec(s2, i + 1))
         return res
     return rec(st, 0)
+
+
+def _lazy_get(I, st, m, key, default):
+    """d.get(<literal>, default) on a map whose keys are all literal strings and where the key names an optional entry:
+    the result is a lazily decided value (no fork, the map stays as it is)"""
+    from .values import Choice
+    from .loops import PSTATUS
+    if not isinstance(key, Str):
+        return None
+    hit = None
+    for it in st.maps[m.oid]:
+        if it[0] == 'star' or not isinstance(it[1], Str):
+            return None
+        if it[1].s == key.s:
+            if hit is not None:
+                return None
+            hit = it
+    if hit is None or hit[0] != 'opt':
+        return None
+    cur = st.dom.get(hit[3], PSTATUS)
+    yes, no = cur & hit[4], cur - hit[4]
+    if not no:
+        return hit[2]
+    if not yes:
+        return default
+    return Choice([({hit[3]: yes}, hit[2]), ({hit[3]: no}, default)])
 
 
 def map_contains(I, st, m, key, frame):
@@ -266,6 +312,10 @@ def map_pop(I, st, m, key, default, frame):
 def map_items(I, st, m, what='items'):
     elems = []
     for it in st.maps[m.oid]:
+        if it[0] == 'opt':
+            from .values import Opt
+            elems.append(Opt(it[3], it[4], TupleV([it[1], it[2]]) if what == 'items' else (it[1] if what == 'keys' else it[2])))
+            continue
         if it[0] == 'kv':
             if what == 'items':
                 elems.append(TupleV([it[1], it[2]]))
@@ -324,6 +374,9 @@ def call_container_method(I, st, recv, name, args, kw, frame, node):
     # dict
     if name == 'get':
         default = args[1] if len(args) > 1 else kw.get('default', NONE)
+        lazy = _lazy_get(I, st, recv, args[0], default)
+        if lazy is not None:
+            return [(st, lazy)]
         return [(s, default if r is None else r) for (s, r) in map_lookup(I, st, recv, args[0], frame)]
     if name == 'pop':
         if len(args) > 1:
